@@ -106,7 +106,7 @@ theorem call_reads_registers_in_order (n i : Nat) (s : St) :
 /-- the `local` lines of a function head -/
 def paramLines (s : St) : List String → Nat → List Line
   | [], _ => []
-  | p :: rest, i => .localAssign (varName s p false) s!"${i + 1}" :: paramLines s rest (i + 1)
+  | p :: rest, i => .localAssign (varName s p false) (i + 1) :: paramLines s rest (i + 1)
 
 theorem localParams_run : ∀ (ps : List String) (i : Nat) (s t : St), t.funcs = s.funcs → t.funcCounter = s.funcCounter →
     localParams ps i t = .ok ((), { t with code := (paramLines s ps i).reverse ++ t.code }) := by
